@@ -58,10 +58,14 @@ def main():
                     continue
                 jobs.append(("seeded", os.path.basename(d), os.path.join(d, "patch.diff"), cb or [meta["property"]]))
     if what in ("preserving", "all"):
-        for f in sorted(glob.glob(os.path.join(HERE, "preserving", "*.diff"))):
+        for f in sorted(glob.glob(os.path.join(HERE, "preserving", "*.diff")) + glob.glob(os.path.join(HERE, "preserving_ext", "*.diff"))):
             n = os.path.basename(f)[:-5]
             if not names or n in names:
                 jobs.append(("preserving", n, f, ALL))
+    if what == "ext":
+        # behaviour-preserving patches from outside the catalogue: run.py ext <dir>
+        for f in sorted(glob.glob(os.path.join(names[0], "*.diff"))):
+            jobs.append(("preserving", os.path.basename(os.path.dirname(f)) + "/" + os.path.basename(f)[:-5], f, ALL))
     failures = 0
     with ThreadPoolExecutor(max_workers=4) as ex:
         for (kind, n, f, props), res in zip(jobs, ex.map(lambda j: run_patch(j[2], j[3]), jobs)):
